@@ -14,6 +14,11 @@ FUNCS = [('modeling.py', 'contracts.py.lin_spec', '_lin._addterm'),
          ('modeling.py', 'contracts.py.function_spec', '_function.__imul__'),
          ('modeling.py', 'contracts.py.function_spec', '_function.__iadd__'),
          ('modeling.py', 'contracts.py.function_spec', '_function.__isub__'),
+         ('modeling.py', 'contracts.py.function_spec', '_function.__pos__'),
+         ('modeling.py', 'contracts.py.function_spec', '_function.__neg__'),
+         ('modeling.py', 'contracts.py.function_spec', '_function.__add__'),
+         ('modeling.py', 'contracts.py.function_spec', '_function.__sub__'),
+         ('modeling.py', 'contracts.py.function_spec', '_function.__rsub__'),
          ('modeling.py', 'contracts.py.function_index_spec', 'sum'),
          ('modeling.py', 'contracts.py.function_index_spec',
           '_function.__getitem__'),
@@ -55,6 +60,11 @@ class Battery:
                     cnt.get('sum-index'),)
                 self.result = None
             if self.result is not None and not self.result.get(
+                    'binop-value') and cnt.get('binary', 0) < 100:
+                self.err = 'binary-operator oracle made only %s comparisons' \
+                    % (cnt.get('binary'),)
+                self.result = None
+            if self.result is not None and not self.result.get(
                     'key-value') and cnt.get('keytolist', 0) < 100:
                 self.err = '_keytolist oracle made only %s comparisons' % (
                     cnt.get('keytolist'),)
@@ -86,6 +96,8 @@ def make_replayer():
             want = ['iaddsub-value']
         if ob.kind.startswith('sum-'):
             want = ['sum-value']
+        if ob.kind.startswith('binop-'):
+            want = ['binop-value', 'binop-fresh']
         if ob.kind.startswith('key-'):
             want = ['key-value']
         if ob.kind.startswith('index-') or ob.kind.startswith('lin-index-'):
